@@ -361,11 +361,24 @@ type liveAnalysis struct {
 	memo   map[*ssa.Function]int // 1 live, 2 not, 3 in progress
 	why    map[*ssa.Function]string
 	filter map[*ssa.Function]bool
+	// committed: judge the committed-transaction guard instead of the tombstone/expiry guards
+	committed bool
+}
+
+// guardedAt dispatches to the guard family of this analysis.
+func (a *liveAnalysis) guardedAt(fn *ssa.Function, v ssa.Value, blk *ssa.BasicBlock) (bool, string) {
+	if a.committed {
+		es := committedGuardEdges(fn)
+		if len(es) > 0 && domWithPrune(fn, es, blk, a.spec.prune) {
+			return true, ""
+		}
+		return false, "committed-transaction test on " + dispPath(v)
+	}
+	return liveGuardsOf(a.c.P, fn).guarded(v, blk, a.spec.prune)
 }
 
 // isLiveFilter: fn returns a []*Entry all of whose appended elements passed both guards.
 func (a *liveAnalysis) appendsGuarded(fn *ssa.Function) (bool, int, string, ssa.Instruction) {
-	g := liveGuardsOf(a.c.P, fn)
 	n := 0
 	reach := reachFrom(fn.Blocks[0], a.spec.prune)
 	var bad string
@@ -403,7 +416,7 @@ func (a *liveAnalysis) appendsGuarded(fn *ssa.Function) (bool, int, string, ssa.
 			return
 		}
 		for _, e := range elems {
-			if ok, why := g.guarded(e, in.Block(), a.spec.prune); !ok && bad == "" {
+			if ok, why := a.guardedAt(fn, e, in.Block()); !ok && bad == "" {
 				bad, badIn = "appends an entry without the "+why, in
 			}
 		}
@@ -461,8 +474,7 @@ func (a *liveAnalysis) valueLive(fn *ssa.Function, v ssa.Value, blk *ssa.BasicBl
 				}
 			}
 			// individually guarded value
-			g := liveGuardsOf(a.c.P, fn)
-			if ok, why := g.guarded(x, blk, a.spec.prune); ok {
+			if ok, why := a.guardedAt(fn, x, blk); ok {
 				continue
 			} else {
 				return false, "value " + dispPath(x) + " lacks the " + why
@@ -476,8 +488,7 @@ func (a *liveAnalysis) valueLive(fn *ssa.Function, v ssa.Value, blk *ssa.BasicBl
 				return false, why
 			}
 		default:
-			g := liveGuardsOf(a.c.P, fn)
-			if ok, why := g.guarded(r, blk, a.spec.prune); ok {
+			if ok, why := a.guardedAt(fn, r, blk); ok {
 				continue
 			} else {
 				return false, "value " + dispPath(r) + " lacks the " + why
